@@ -65,12 +65,22 @@ def universes(
                     lens[i] += 1
                 seen.add(lens[i])
     dims = []
+    zero_used = False
     for k, (l, ln) in enumerate(zip(letters, lens)):
         kind = draw(st.sampled_from(list(kinds)))
         its = items_for(l, k, ln, kind)
+        if kind in ("int", "uint") and not zero_used and draw(st.integers(0, 3)) == 0:
+            # labels may be falsy (0) or negative: one dimension counts from 0 (age cohorts, indices)
+            zero_used = True
+            off = draw(st.sampled_from([0, 0, -1]))
+            its = [i + off for i in range(ln)]
         if ln > 2 and draw(st.booleans()):
-            # items need not be listed in sorted order (consecutive ints in a shuffled order included)
-            its = list(draw(st.permutations(its)))
+            # items need not be listed in sorted order (consecutive ints in a shuffled order included);
+            # one pattern keeps the smallest first and the largest last and shuffles only the interior
+            if ln > 3 and draw(st.booleans()):
+                its = [its[0]] + list(draw(st.permutations(its[1:-1]))) + [its[-1]]
+            else:
+                its = list(draw(st.permutations(its)))
         dims.append(
             {
                 "letter": l,
